@@ -9,17 +9,18 @@ validators `V` of keys and query values; `C` ranges over the constants of either
 regenerated from source, and `Tied C` says that they are what the specification demands
 (`c05_constants_tied_v2`, `c05_constants_tied_root`).
 
-Where the code on the unchanged tree violates the property, the full statement is kept as a named
-proposition, the theorem that holds is published as `…_partial` with the guard as a decidable
-predicate, and the negation of the full statement is proved on a concrete witness. Findings:
+Where the code violates the property, the full statement is kept as a named proposition, the
+theorem that holds is published as `…_partial` with the guard as a decidable predicate, and the
+negation of the full statement is proved on a concrete witness. One finding is left:
 
-* F7   a malformed query value is answered 500 (plain text), not 400          — guard `queryValid`
-* F20  a malformed entity key on a registered collection is answered 404      — guard `keysValid`
-* ACT  entity-key presence is not checked for actions                          — guard `actionLevelMatches`
-* F6   `NewPrefixedServer` discards its prefix                                 — guard `normalisePrefix p = "/"`
-* MUX  `AddToMux` registers exact patterns: only `/root` reaches the handler   — guard: one path segment
-* F5   the path is split after percent-decoding when it is canonically escaped — outside this model's
-       request type (`RawReq` carries what `net/http` delivers); witnessed by the harness -/
+* ACT  `receive` does not check entity-key presence for actions; the generated path decoder does,
+       after the filters have run: an entity-level action without a key / a resource-level action
+       with one is answered 400, but it counts as routed and the filters see it
+                                                                          — guard `actionLevelMatches`
+
+Repaired in /repo and therefore gone from this file (the model follows the repaired code):
+F7 (malformed query → 400), F20 (malformed key → 400), F5 (`URL.EscapedPath()`), F6
+(`NewPrefixedServer` keeps its prefix), MUX (`AddToMux` registers the subtree pattern too). -/
 namespace Restli.Routing
 open Spec
 
@@ -32,28 +33,28 @@ theorem c05_constants_tied_root : Tied constsRoot := tied_root
 
 /-! ## the model's decision is the specification's -/
 
-/-- the three guards forced by findings F7, F20 and ACT -/
-def Guards (V : String → Bool) (roots : List Node) (req : Req) : Prop :=
-  queryValid V req = true ∧ keysValid V req = true ∧ actionLevelMatches roots req = true
+/-- the guard forced by finding ACT -/
+def Guards (roots : List Node) (req : Req) : Prop := actionLevelMatches roots req = true
 
-instance (V : String → Bool) (roots : List Node) (req : Req) : Decidable (Guards V roots req) := by
+instance (roots : List Node) (req : Req) : Decidable (Guards roots req) := by
   unfold Guards; infer_instance
 
-/-- **Full statement** (false today, see the three `…_cex` theorems): on every request whose outcome
-the property text determines, the routing decision of the code is the one of the decision table. -/
+/-- **Full statement** (false today, see `c05_route_eq_spec_cex_action_level`): on every request whose
+outcome the property text determines, the routing decision of the code is the one of the decision table. -/
 def RouteEqSpec (C : Consts) : Prop :=
   ∀ (V : String → Bool) (roots : List Node) (req : Req), nodesOk roots = true →
-    specified roots req = true → route C V roots req = Spec.decide V roots req
+    specified V roots req = true → route C V roots req = Spec.decide V roots req
 
 /-- For every tree `Register*` can build, every validator and every request the text determines —
-outside the three findings — the code routes the request to the method the decision table names, or
-refuses it with the status the table names. -/
+outside the action-level finding — the code routes the request to the method the decision table
+names, or refuses it with the status the table names (404 for unknown resources and sub-resources,
+400 otherwise, malformed keys and query values included). -/
 theorem c05_route_eq_spec_partial (C : Consts) (hC : Tied C) (V : String → Bool) (roots : List Node) (req : Req)
-    (hroots : nodesOk roots = true) (hg : Guards V roots req) (hs : specified roots req = true) :
+    (hroots : nodesOk roots = true) (hg : Guards roots req) (hs : specified V roots req = true) :
     route C V roots req = Spec.decide V roots req := by
   simp only [specified, Bool.and_eq_true, Bool.not_eq_eq_eq_not, Bool.not_true] at hs
-  obtain ⟨⟨⟨⟨h1, _⟩, h3⟩, h4⟩, h5⟩ := hs
-  refine route_eq_decide C hC V roots req hroots hg.1 hg.2.1 hg.2.2 h1 h3 h4 ?_
+  obtain ⟨⟨⟨⟨⟨h1, _⟩, h3⟩, h4⟩, h6⟩, h5⟩ := hs
+  refine route_eq_decide C hC V roots req hroots hg h1 h3 h4 h6 ?_
   intro t ht
   simp only [ht, Bool.and_eq_true, Bool.not_eq_eq_eq_not, Bool.not_true] at h5
   exact ⟨h5.1.1.2, h5.1.2⟩
@@ -63,11 +64,12 @@ verb, an empty path segment and `q` together with `ids` are decided by the code 
 table's uniform reading decides them (the header names the method; an empty segment is a segment;
 `q` is looked at before `ids`). -/
 theorem c05_route_eq_spec_wider (C : Consts) (hC : Tied C) (V : String → Bool) (roots : List Node) (req : Req)
-    (hroots : nodesOk roots = true) (hg : Guards V roots req)
+    (hroots : nodesOk roots = true) (hg : Guards roots req)
     (h1 : unknownHeaderValue req = false) (h2 : emptyReservedValue req = false) (h3 : duplicateReserved req = false)
+    (h5 : malformedAndUnknown V roots req = false)
     (h4 : ∀ t, locate roots req.path = some t → otherVerbWithHeaderOnSimple t req = false ∧ keyAndIds t req = false) :
     route C V roots req = Spec.decide V roots req :=
-  route_eq_decide C hC V roots req hroots hg.1 hg.2.1 hg.2.2 h1 h2 h3 h4
+  route_eq_decide C hC V roots req hroots hg h1 h2 h3 h5 h4
 
 /-! witnesses -/
 
@@ -80,40 +82,33 @@ def witnessReq (verb : Verb) (hdr : Option String) (path : List String) (query :
   { verb := verb, headers := hdr.toList.map (fun h => ("X-RestLi-Method", h)), path := path, query := query,
     decodes := Method.all, implOk := true }
 
-/-- (F7) `GET /coll/1?foo=)`: the code answers 500, the table says 400. -/
-theorem c05_route_eq_spec_cex_malformed_query : ¬ RouteEqSpec constsV2 := by
+/-- (ACT) `POST /coll/1?action=resAct` with `X-RestLi-Method: action`: a resource-level action called
+with an entity key counts as routed in the code (the filters run; the generated path decoder then
+answers 400); the table refuses it without touching anything. -/
+theorem c05_route_eq_spec_cex_action_level : ¬ RouteEqSpec constsV2 := by
   intro h
-  have := h validateRor2Input witnessTree (witnessReq .GET none ["coll", "1"] [("foo", ")")]) (by decide) (by decide)
-  revert this; decide
-
-/-- (F20) `GET /coll/)`: the code answers 404 although `/coll` is registered; the table says 400.
-The other two guards hold on this request, so the guard `keysValid` cannot be dropped. -/
-theorem c05_route_eq_spec_cex_malformed_key :
-    ¬ (∀ (V : String → Bool) (roots : List Node) (req : Req), nodesOk roots = true → specified roots req = true →
-        queryValid V req = true → actionLevelMatches roots req = true →
-        route constsV2 V roots req = Spec.decide V roots req) := by
-  intro h
-  have := h validateRor2Input witnessTree (witnessReq .GET none ["coll", ")"] []) (by decide) (by decide)
+  have := h validateRor2Input witnessTree (witnessReq .POST (some "action") ["coll", "1"] [("action", "resAct")])
     (by decide) (by decide)
   revert this; decide
 
-/-- (ACT) `POST /coll/1?action=resAct` with `X-RestLi-Method: action`: a resource-level action called
-with an entity key is routed by the code; the table refuses it with 400. The other two guards hold. -/
-theorem c05_route_eq_spec_cex_action_level :
-    ¬ (∀ (V : String → Bool) (roots : List Node) (req : Req), nodesOk roots = true → specified roots req = true →
-        queryValid V req = true → keysValid V req = true →
-        route constsV2 V roots req = Spec.decide V roots req) := by
-  intro h
-  have := h validateRor2Input witnessTree (witnessReq .POST (some "action") ["coll", "1"] [("action", "resAct")])
-    (by decide) (by decide) (by decide) (by decide)
-  revert this; decide
+/-- (was F7) a malformed query value is a bad request, for the code as for the table. -/
+theorem c05_malformed_query_is_400 :
+    route constsV2 validateRor2Input witnessTree (witnessReq .GET none ["coll", "1"] [("foo", ")")]) = .reject 400 ∧
+    Spec.decide validateRor2Input witnessTree (witnessReq .GET none ["coll", "1"] [("foo", ")")]) = .reject 400 := by
+  decide
+
+/-- (was F20) a malformed entity key on a registered collection is a bad request, not a missing resource. -/
+theorem c05_malformed_key_is_400 :
+    route constsV2 validateRor2Input witnessTree (witnessReq .GET none ["coll", ")"] []) = .reject 400 ∧
+    Spec.decide validateRor2Input witnessTree (witnessReq .GET none ["coll", ")"] []) = .reject 400 := by
+  decide
 
 /-- "A request is routed to a resource method if and only if its path names a registered resource
 (walking parent keys and sub-resources), its Rest.li method is registered on that resource, and the
 presence of an entity key matches what that method requires" — `Routable` spells the right-hand
 side out (`Spec/Routing.lean`); the facts handed to filters and method are the ones it names. -/
 theorem c05_routed_iff (C : Consts) (hC : Tied C) (V : String → Bool) (roots : List Node) (req : Req) (f : Facts)
-    (hroots : nodesOk roots = true) (hg : Guards V roots req) (hs : specified roots req = true) :
+    (hroots : nodesOk roots = true) (hg : Guards roots req) (hs : specified V roots req = true) :
     route C V roots req = .routed f ↔ Routable V roots req f := by
   rw [c05_route_eq_spec_partial C hC V roots req hroots hg hs, decide_routed_iff]
 
@@ -154,44 +149,21 @@ theorem c05_exactly_one_served (C : Consts) (V : String → Bool) (h : Handler) 
 
 /-! ## requests that are not routed -/
 
-/-- **Full statement** (false today: F7, F20): a request that is not routed gets 404 when its path
-names no registered resource and 400 otherwise, and touches neither filters nor resource code. -/
-def UnroutedIs4xx (C : Consts) : Prop :=
-  ∀ (V : String → Bool) (h : Handler) (req : Req) (st : Nat), route C V h.roots req = .reject st →
-    (serveSegs C V h req).events = [] ∧ (serveSegs C V h req).status = st ∧
-    st = if (locate h.roots req.path).isNone then 404 else 400
-
-/-- Outside F7 and F20: every request that is not routed — specified by the text or not — is
-answered 404 exactly when its path names no registered resource or sub-resource and 400 otherwise.
-No filter and no resource code runs (this half needs no guard at all). -/
-theorem c05_unrouted_is_4xx_and_untouched_partial (C : Consts) (hC : Tied C) (V : String → Bool) (h : Handler)
-    (req : Req) (st : Nat) (hqv : queryValid V req = true) (hkv : keysValid V req = true)
-    (hr : route C V h.roots req = .reject st) :
-    (serveSegs C V h req).events = [] ∧ (serveSegs C V h req).status = st ∧
-    st = if (locate h.roots req.path).isNone then 404 else 400 :=
+/-- Every request that is not routed — specified by the text or not — receives a 4xx response (404
+or 400) and touches neither filters nor resource code. -/
+theorem c05_unrouted_is_4xx_and_untouched (C : Consts) (hC : Tied C) (V : String → Bool) (h : Handler)
+    (req : Req) (st : Nat) (hr : route C V h.roots req = .reject st) :
+    (serveSegs C V h req).events = [] ∧ (serveSegs C V h req).status = st ∧ (st = 404 ∨ st = 400) :=
   ⟨(serveSegs_unrouted C V h req st hr).1, (serveSegs_unrouted C V h req st hr).2,
-   reject_status C hC V h.roots req st hqv hkv hr⟩
+   reject_4xx C hC V h.roots req st hr⟩
 
-/-- No guard is needed for "without touching resource code or filters". -/
-theorem c05_unrouted_untouched (C : Consts) (V : String → Bool) (h : Handler) (req : Req) (st : Nat)
+/-- 404 exactly for unknown resources and sub-resources, 400 otherwise — on every request that does
+not combine a malformed path segment with an unknown resource (the text gives no order there). -/
+theorem c05_unrouted_404_iff_unknown (C : Consts) (hC : Tied C) (V : String → Bool) (h : Handler)
+    (req : Req) (st : Nat) (hs : malformedAndUnknown V h.roots req = false)
     (hr : route C V h.roots req = .reject st) :
-    (serveSegs C V h req).events = [] ∧ (serveSegs C V h req).status = st :=
-  serveSegs_unrouted C V h req st hr
-
-/-- (F7) `GET /coll/1?foo=)` is answered 500. -/
-theorem c05_unrouted_is_4xx_cex_malformed_query : ¬ UnroutedIs4xx constsV2 := by
-  intro h
-  have := h validateRor2Input ⟨"/", [], witnessTree⟩ (witnessReq .GET none ["coll", "1"] [("foo", ")")]) 500 (by decide)
-  revert this; decide
-
-/-- (F20) `GET /coll/)` is answered 404 although `/coll` is a registered resource. -/
-theorem c05_unrouted_is_4xx_cex_malformed_key :
-    ¬ (∀ (V : String → Bool) (h : Handler) (req : Req) (st : Nat), queryValid V req = true →
-        route constsV2 V h.roots req = .reject st →
-        st = if (locate h.roots req.path).isNone then 404 else 400) := by
-  intro h
-  have := h validateRor2Input ⟨"/", [], witnessTree⟩ (witnessReq .GET none ["coll", ")"] []) 404 (by decide) (by decide)
-  revert this; decide
+    st = if (locate h.roots req.path).isNone then 404 else 400 :=
+  reject_status C hC V h.roots req st hs hr
 
 /-! ## filters -/
 
@@ -248,77 +220,53 @@ theorem c05_filters_see_routed_facts (C : Consts) (V : String → Bool) (h : Han
 
 /-! ## mounting -/
 
-/-- Bare handler: a request whose URL path is `/` + the segments joined by `/` (delivered in
-`URL.Path`, `RawPath` empty) is served as the routing model says for those segments. -/
-theorem c05_mounting_invariant_bare (C : Consts) (V : String → Bool) (h : Handler) (req : Req)
+/-- Bare handler: a request whose escaped path is `/` + the segments joined by `/` is served as the
+routing model says for those segments. -/
+theorem c05_mounting_invariant_bare (C : Consts) (V : String → Bool) (h : Handler) (req : Req) (urlPath : String)
     (hp : h.pfx = "/") (hne : req.path ≠ []) (hns : req.path.all noSlash = true) :
-    serveHTTP C V h ⟨"", String.ofList ('/' :: joinSlash req.path), req⟩ = serveSegs C V h req :=
-  serveHTTP_bare C V h req hp hne hns
+    serveHTTP C V h ⟨String.ofList ('/' :: joinSlash req.path), urlPath, req⟩ = serveSegs C V h req :=
+  serveHTTP_bare C V h req urlPath hp hne hns
 
-/-- **Full statement** (false today: F6): a server built with a path prefix answers a request under
-the prefix as the plain server answers the request without it. -/
-def MountPrefixOk (C : Consts) : Prop :=
-  ∀ (V : String → Bool) (p : String) (fs : List FilterKind) (regs : List (List Seg × Reg)) (req : Req),
-    req.path ≠ [] → req.path.all noSlash = true →
+/-- Path prefix: a server built with `NewPrefixedServer(p)` answers a request under the (normalised)
+prefix exactly as the plain server answers the request without it — whatever the prefix, the
+filters and the registrations. -/
+theorem c05_mounting_invariant_prefix (C : Consts) (hlit : C.prefixIsLiteral = false)
+    (V : String → Bool) (p : String) (fs : List FilterKind) (regs : List (List Seg × Reg)) (req : Req) (urlPath : String)
+    (hne : req.path ≠ []) (hns : req.path.all noSlash = true) :
     serveHTTP C V (registerAll (newPrefixedServer C p fs) regs).handler
-        ⟨"", String.ofList ((normalisePrefix p).toList ++ joinSlash req.path), req⟩ =
-      serveSegs C V (registerAll (newServer C fs) regs).handler req
-
-/-- It holds for the prefixes that normalise to `/` (that is: `NewServer`, `NewPrefixedServer("")`,
-`NewPrefixedServer("/")`). -/
-theorem c05_mounting_invariant_prefix_partial (C : Consts) (hlit : C.prefixIsLiteral = true → C.prefixLiteral = "/")
-    (V : String → Bool) (p : String) (fs : List FilterKind) (regs : List (List Seg × Reg)) (req : Req)
-    (hnorm : normalisePrefix p = "/") (hne : req.path ≠ []) (hns : req.path.all noSlash = true) :
-    serveHTTP C V (registerAll (newPrefixedServer C p fs) regs).handler
-        ⟨"", String.ofList ((normalisePrefix p).toList ++ joinSlash req.path), req⟩ =
+        ⟨String.ofList ((normalisePrefix p).toList ++ joinSlash req.path), urlPath, req⟩ =
       serveSegs C V (registerAll (newServer C fs) regs).handler req := by
-  have hpfx : ∀ q, normalisePrefix q = "/" → (newPrefixedServer C q fs).pfx = "/" := by
-    intro q hq
-    simp only [newPrefixedServer]
-    split
-    · exact hlit (by assumption)
-    · exact hq
-  rw [prefixed_handler, hnorm, slash_toList]
-  have h1 := serveHTTP_bare C V { (registerAll (newServer C fs) regs).handler with pfx := (newPrefixedServer C p fs).pfx }
-    req (hpfx p hnorm) hne hns
-  have h2 : ∀ (h : Handler) (q : String), serveSegs C V { h with pfx := q } req = serveSegs C V h req := by
-    intro h q; rfl
-  rw [h2] at h1
+  have hpfx : (newPrefixedServer C p fs).pfx = normalisePrefix p := by simp [newPrefixedServer, hlit]
+  rw [prefixed_handler, hpfx]
+  have h1 := serveHTTP_under_prefix C V { (registerAll (newServer C fs) regs).handler with pfx := normalisePrefix p }
+    req urlPath hne hns
   exact h1
 
-/-- (F6) `NewPrefixedServer("/api")` with a collection `coll`: `GET /api/coll/1` is answered 404. -/
-theorem c05_mounting_prefix_cex : ¬ MountPrefixOk constsV2 := by
-  intro h
-  have := h validateRor2Input "/api" [] [([("coll", true)], .method .get)]
-    (witnessReq .GET none ["coll", "1"] []) (by decide) (by decide)
-  have hs := congrArg Outcome.status this
-  revert hs; decide +kernel
+/-- ServeMux: mounted through `AddToMux` (exact and subtree pattern per root resource), the server
+answers every request without empty or dot segments as the bare handler does. -/
+theorem c05_mounting_invariant_mux (C : Consts) (ht : C.muxPatterns = [false, true])
+    (V : String → Bool) (s : Server) (req : Req)
+    (hp : s.pfx = "/") (hne : req.path ≠ []) (hns : req.path.all noSlash = true)
+    (hseg : ∀ x ∈ req.path, x ≠ "" ∧ x ≠ "." ∧ x ≠ "..") :
+    ((addToMux C s).serve C V ⟨String.ofList ('/' :: joinSlash req.path), String.ofList ('/' :: joinSlash req.path), req⟩).outcome =
+      some (serveSegs C V s.handler req) :=
+  mux_all C V s req hp ht hne hns hseg
 
-/-- **Full statement** (false today: MUX): mounted through `AddToMux`, the server answers every
-request as the bare handler does. -/
-def MountMuxOk (C : Consts) : Prop :=
-  ∀ (V : String → Bool) (s : Server) (req : Req), s.pfx = "/" → req.path ≠ [] → req.path.all noSlash = true →
-    (∀ x ∈ req.path, x ≠ "" ∧ x ≠ "." ∧ x ≠ "..") →
-    ((addToMux C s).serve C V ⟨"", String.ofList ('/' :: joinSlash req.path), req⟩).outcome =
-      some (serveSegs C V s.handler req)
+/-- (was F6) `NewPrefixedServer("/api")` with a collection `coll`: `GET /api/coll/1` is served, `GET /coll/1` is not. -/
+theorem c05_prefix_witness :
+    (serveHTTP constsV2 validateRor2Input
+      (registerAll (newPrefixedServer constsV2 "/api" []) [([("coll", true)], .method .get)]).handler
+      ⟨"/api/coll/1", "/api/coll/1", witnessReq .GET none [] []⟩).status = 200 ∧
+    (serveHTTP constsV2 validateRor2Input
+      (registerAll (newPrefixedServer constsV2 "/api" []) [([("coll", true)], .method .get)]).handler
+      ⟨"/coll/1", "/coll/1", witnessReq .GET none [] []⟩).status = 404 := by
+  decide +kernel
 
-/-- It holds for requests that name a root resource and nothing more (one path segment). -/
-theorem c05_mounting_invariant_mux_partial (C : Consts) (ht : C.muxPatternTrailingSlash = false)
-    (V : String → Bool) (s : Server) (r : String) (req : Req)
-    (hp : s.pfx = "/") (hpath : req.path = [r]) (hr : noSlash r = true) (hdot : r ≠ "." ∧ r ≠ "..") :
-    ((addToMux C s).serve C V ⟨"", String.ofList ('/' :: joinSlash req.path), req⟩).outcome =
-      some (serveSegs C V s.handler req) := by
-  have : joinSlash req.path = r.toList := by simp [hpath, joinSlash]
-  rw [this]
-  exact mux_single C V s r req hp ht hpath hr hdot
-
-/-- (MUX) a collection `coll` mounted through `AddToMux`: `GET /coll/1` gets ServeMux's own 404. -/
-theorem c05_mounting_mux_cex : ¬ MountMuxOk constsV2 := by
-  intro h
-  have := h validateRor2Input (registerAll (newServer constsV2 []) [([("coll", true)], .method .get)])
-    (witnessReq .GET none ["coll", "1"] []) (by decide) (by decide) (by decide) (by decide)
-  have hs := congrArg (fun o => o.map Outcome.status) this
-  revert hs; decide +kernel
+/-- (was MUX) a collection `coll` mounted through `AddToMux`: `GET /coll/1` reaches the handler. -/
+theorem c05_mux_witness :
+    (((addToMux constsV2 (registerAll (newServer constsV2 []) [([("coll", true)], .method .get)])).serve constsV2
+      validateRor2Input ⟨"/coll/1", "/coll/1", witnessReq .GET none [] []⟩).outcome.map Outcome.status) = some 200 := by
+  decide +kernel
 
 /-! ## `Handler()` is a snapshot -/
 
@@ -342,8 +290,8 @@ example : nodesOk witnessTree = true := by decide
 /-- GET /coll/1 is routed to `get` with key `1` -/
 example : route constsV2 validateRor2Input witnessTree (witnessReq .GET none ["coll", "1"] []) =
     .routed ⟨.get, [("coll", true)], ["1"], none, none⟩ := by decide
-example : Guards validateRor2Input witnessTree (witnessReq .GET none ["coll", "1"] []) := by decide
-example : specified witnessTree (witnessReq .GET none ["coll", "1"] []) = true := by decide
+example : Guards witnessTree (witnessReq .GET none ["coll", "1"] []) := by decide
+example : specified validateRor2Input witnessTree (witnessReq .GET none ["coll", "1"] []) = true := by decide
 /-- GET /coll?q=byName is routed to the finder, the sub-resource is reached through the key -/
 example : route constsV2 validateRor2Input witnessTree (witnessReq .GET none ["coll"] [("q", "byName")]) =
     .routed ⟨.finder, [("coll", true)], [], some "byName", none⟩ := by decide
@@ -360,8 +308,8 @@ example : (serveSegs constsV2 validateRor2Input ⟨"/", [.pass, .ctx], witnessTr
 example : (serveSegs constsV2 validateRor2Input ⟨"/", [.pass, .failPre, .ctx], witnessTree⟩
     (witnessReq .GET none ["coll", "1"] [])).events.map Event.tag = [.pre 0, .pre 1] := by decide
 /-- the guards of the mounting theorems are satisfiable -/
-example : normalisePrefix "" = "/" := by decide
-example : constsV2.muxPatternTrailingSlash = false := by decide
-example : constsV2.prefixIsLiteral = true → constsV2.prefixLiteral = "/" := by decide
+example : constsV2.prefixIsLiteral = false ∧ constsRoot.prefixIsLiteral = false := by decide
+example : constsV2.muxPatterns = [false, true] ∧ constsRoot.muxPatterns = [false, true] := by decide
+example : normalisePrefix "/api" = "/api/" := by decide
 
 end Restli.Routing
